@@ -178,7 +178,7 @@ def rtok(s, table=BUILTINS, strict=True):
             i += 1
         else:
             j = i + 1
-            while j < n and s[j] not in WS and s[j] not in DELIMS:
+            while j < n and s[j] not in WS and s[j] not in DELIMS and s[j] not in ",;":
                 j += 1
             run = s[st:j]
             if run in ops:
@@ -760,10 +760,9 @@ def join_tokens(toks, rnd=None, compact=0.0, ws=None, wordops=(), table=None):
             a = toks[i - 1]
             if rnd is None:
                 tight = glue_ok(a, t) and (isinstance(a, FnName) or t in (")", "]", "}", ",") or a in ("(", "[", "{"))
-                if a in wordops and t in (",", ";"):
-                    tight = False
             elif rnd.random() < compact:
-                tight = glue_safe(a, t, table, sig) if table is not None else (glue_ok(a, t) and not (a in wordops and t in (",", ";")))
+                # (a word operator may stand directly before `,` / `;` since repair 4aaeb6d; `wordops` is kept for callers' sake)
+                tight = glue_safe(a, t, table, sig) if table is not None else glue_ok(a, t)
             else:
                 tight = False
             if not tight:
